@@ -6,6 +6,7 @@ from .sessioncheck import SessionCheck
 
 class C06(SessionCheck):
     pid = "C06"
+    exhaustive_filters = ([],)   # the stream has zero durations: filters are outside the property there
     assumptions = ["no filter: durations >= 0 (zero included); with filters: positive durations (the property's own scope)",
                    "every operation has an eligible machine"]
     modelled_not_verified = [
